@@ -95,6 +95,7 @@ def stepLine (useSpec : Bool) (st : St) (line : String) : St × String :=
         | _ => (Kind.ptr, 256, true)
       ({ kind, ptrMod := pm, isPtrCmp := isP, active := true }, "ok")
     | ["A"] => (st, if st.active then "audit ok" else "bad-op")
+    | ["probe", _] => (st, "ok")     -- harness-only switch (re-entrant membership probe in cleanups)
     | f =>
       if !st.active then (st, "bad-op") else
       match parseOp st f with
